@@ -56,29 +56,29 @@ def run(ctx):
     hz = ctx.tlc(SPEC, "Pool", cfg="MC_Hazard", label="MC_Hazard", expect=("violation",))
     ctx.extra["hazard_violates"] = hz.violated
     # 3. behaviours of the model replayed on the real pool + scheduler
-    g = ctx.tlc(SPEC, "Gen_Pool", cfg="Gen_Sim", mode="simulate", num=ctx.pick(600, 6000), depth=300,
+    g = ctx.tlc(SPEC, "Gen_Pool", cfg="Gen_Sim", mode="simulate", num=ctx.pick(300, 6000), depth=300,
                 label="Gen_Sim", dump_trace=False, timeout=1500)
     beh = ctx.read_emitted(g, "behaviours.ndjson")
-    if len(beh) < ctx.pick(400, 4000):
+    if len(beh) < ctx.pick(200, 4000):
         ctx.broken("behaviour generation produced only %d behaviours" % len(beh))
     go = ctx.gotest("pkg/generator", "^TestVerif_C39_Replay$", ["c39_test.go"], inputs={"behaviours.ndjson": beh},
                     extra_overlay=OVERLAY, label="replay_generator", timeout=ctx.pick(600, 3000))
     ctx.absorb(go)
     check_replay(ctx, go, "replay_generator",
                  ["WGenerate", "WGenerateNil", "WSaveOk", "WSaveFail", "WSaveCrash", "WPush", "WDrop", "Stop", "Resume",
-                  "GPop", "GPopEmpty", "GDeleteOk", "GDeleteFail", "GDeleteCrash", "Restart"], ctx.pick(100, 1000))
+                  "GPop", "GPopEmpty", "GDeleteOk", "GDeleteFail", "GDeleteCrash", "Restart"], ctx.pick(50, 1000))
     # 4. the same on the real pool over the real preParamsStorage (no scheduler access from that package)
-    g2 = ctx.tlc(SPEC, "Gen_Pool", cfg="Gen_SimNoStop", mode="simulate", num=ctx.pick(300, 2500), depth=300,
+    g2 = ctx.tlc(SPEC, "Gen_Pool", cfg="Gen_SimNoStop", mode="simulate", num=ctx.pick(150, 2500), depth=300,
                  label="Gen_SimNoStop", dump_trace=False, timeout=1500)
     beh2 = ctx.read_emitted(g2, "behaviours.ndjson")
-    if len(beh2) < ctx.pick(200, 1700):
+    if len(beh2) < ctx.pick(100, 1700):
         ctx.broken("behaviour generation (storage) produced only %d behaviours" % len(beh2))
     go2 = ctx.gotest("pkg/tecdsa/dkg", "^TestVerif_C39_ReplayStorage$", ["c39_test.go"], inputs={"behaviours.ndjson": beh2},
                      extra_overlay=OVERLAY, label="replay_dkg", timeout=ctx.pick(900, 3000))
     ctx.absorb(go2)
     check_replay(ctx, go2, "replay_dkg",
                  ["WGenerate", "WSaveOk", "WSaveFail", "WSaveCrash", "WPush", "GPop", "GPopEmpty", "GDeleteOk",
-                  "GDeleteFail", "Restart"], ctx.pick(60, 500))
+                  "GDeleteFail", "Restart"], ctx.pick(30, 500))
     return ctx.finish(
         level="model_checking",
         rule="TLC explores every interleaving of the pool model within the bounds of %s (pool size 2, %s). Conformance: "
